@@ -337,6 +337,8 @@ class FakeSnowflakeCursor:
                     if not db or db == self._conn.database:
                         self._conn.schema = None
                         self._conn.schema_set = False
+                        # point the engine away from the dropped schema, like USE DATABASE does
+                        self._duck_conn.execute(f"SET schema='{self._conn.database}.main'")
 
         if table_comment := cast(tuple[exp.Table, str], transformed.args.get("table_comment")):
             # record table comment
